@@ -223,6 +223,24 @@ def rule_p2(ctx, F):
             ctx.ok("P2", "%s:compiler-not-given-final-path" % name, "no Command argument is the final output path")
 
 
+def rule_p2b(ctx, F):
+    """The temp file is private to the compiling process/thread: temp_path's result depends on the
+    process id and the thread id (two compilers under different lock paths must not share it)."""
+    from taint import Taint
+    fn = ctx.need_fn(F, "temp_path", "P2")
+    if not fn:
+        return
+    for label, needle in (("process id", "std::process::id"), ("thread id", "std::thread::current")):
+        T = Taint(F, [fn], lambda n, f, nd=needle: n.get("k") == "call" and nd in ((n.get("fn") or "") + (n.get("tfn") or ""))).run()
+        rets = [e for pt, e in fn.points() for n in own_walk(e) if n.get("k") == "ret"]
+        ret_tainted = any(T.expr_tainted(n["e"], fn) for pt, e in fn.points() for n in own_walk(e) if n.get("k") == "ret" and n.get("e") is not None)
+        if ret_tainted:
+            ctx.ok("P2", "temp_path:unique-per-%s" % label.split()[0], "the temp file name depends on the %s" % label)
+        else:
+            ctx.bad("P2", "temp_path:unique-per-%s" % label.split()[0], "temp_path's result no longer depends on the %s: two compilers that do not share a lock path (different cache dirs, or one library spelled two ways) "
+                    "write the same temp file and one renames the other's half-written output into place" % label, {"function": "temp_path"})
+
+
 def rule_w2(ctx, F):
     fn = ctx.need_fn(F, "LockFile::create", "W2")
     if fn:
@@ -315,6 +333,7 @@ def run(ctx):
     rule_p1(ctx, F)
     rule_w1(ctx, {"tree_sitter_loader": F, "tree_sitter_cli": ctx.extract.rsfacts("tree_sitter_cli"), "tree_sitter.bin": ctx.extract.rsfacts("tree_sitter.bin")})
     rule_p2(ctx, F)
+    rule_p2b(ctx, F)
     rule_w2(ctx, F)
     rule_p3(ctx, F)
     return ctx.finish(
